@@ -346,6 +346,7 @@ Unschedule(j, a, i, t) ==
 \* PoolScheduler.schedule_loop_body: picks a Ready job of a 'running' job group and an active instance, sends the job to the
 \* worker (from now on the worker may report) -- the CALL schedule_job follows as a separate step.
 SchedSelect(j, a, i) ==
+  /\ ur.r + ur.x > 0 /\ ur.rcores > 0          \* compute_fair_share: the user is listed and is allocated cores (counters!)
   /\ js[j] = "Ready" /\ gst[JGrp[j]] = "running"
   /\ (JAlways[j] \/ (~GrpCanc(JGrp[j]) /\ ~jc[j]))
   /\ inst[i].st = "active" /\ ~att[j][a].ex /\ \A ii \in Insts : <<j, a, ii>> \notin disp
